@@ -238,7 +238,22 @@ def ugeZext : List Schema := [uge_zext_low, uge_zext_high, uge_cat0_low, uge_cat
 /-- byte reversal is an involution, hence injective -/
 def revRules : List Schema := [rev_rev, eq_rev]
 
-def all : List Schema := base ++ widthy ++ iteCmp ++ revRules ++ ugeZext
+/-! #### `Extract` distributes over the bitwise operations (any number of operands) and over an `If` between literals
+(extract_simplifier: `extract_distributable`, `val.op == "If"`) -/
+def extr (p : P) (e : Expr) : Expr := .app (.extract p.c1 p.c2) [e]
+def twoPlus (p : P) : Bool := decide (2 ≤ p.xs.length)
+def isLit : Expr → Bool
+  | .bvv _ _ => true
+  | _ => false
+def extract_and : Schema := { name := "T5.extract_and", lhs := fun p => extr p (.app .band p.xs), rhs := fun p => .app .band (p.xs.map (extr p)), side := twoPlus }
+def extract_or : Schema := { name := "T5.extract_or", lhs := fun p => extr p (.app .bor p.xs), rhs := fun p => .app .bor (p.xs.map (extr p)), side := twoPlus }
+def extract_xor : Schema := { name := "T5.extract_xor", lhs := fun p => extr p (.app .bxor p.xs), rhs := fun p => .app .bxor (p.xs.map (extr p)), side := twoPlus }
+def extract_ite : Schema :=
+  { name := "T6.extract_ite", lhs := fun p => extr p (.app .ite [p.c, p.x, p.y]), rhs := fun p => .app .ite [p.c, extr p p.x, extr p p.y]
+    side := fun p => isLit p.x && isLit p.y }
+def extractRules : List Schema := [extract_and, extract_or, extract_xor, extract_ite]
+
+def all : List Schema := base ++ widthy ++ iteCmp ++ revRules ++ ugeZext ++ extractRules
 
 /-- schemas transcribed from the code whose soundness theorem is not proved yet (used for matching only) -/
 def unproved : List Schema := []
@@ -251,8 +266,19 @@ def bvvOf : Expr → Option (Nat × Nat)
   | .bvv v w => some (v, w)
   | _ => none
 
+/-- proposals for `Extract` of an n-ary node -/
+def proposalsExtract (t : Expr) : List P :=
+  match t with
+  | .app (.extract hi lo) [.app _ xs] =>
+    [{ c1 := hi, c2 := lo, xs := xs }] ++
+    (match xs with
+     | [c, a, b] => [{ c := c, x := a, y := b, c1 := hi, c2 := lo }]
+     | _ => [])
+  | _ => []
+
 /-- parameter proposals for a node: every sub-position that a schema may bind -/
 def proposals (t : Expr) : List P :=
+  proposalsExtract t ++
   match t with
   | .app _ [a] =>
     match a with
